@@ -24,6 +24,7 @@ type Plan struct {
 	V      int    `json:"v"`
 	Dup    int    `json:"dup"`
 	E      []int  `json:"E"` // pages beyond the committed size that are written and then freed (never committed)
+	U      []int  `json:"U"` // new pages the transaction never writes (allocated and freed again): the file grows over them
 	F      []int  `json:"F"` // free-list leaves reused by the transaction: written without being journalled
 }
 
@@ -123,6 +124,8 @@ func (p *Pager) NewImage() []Content {
 			out[q-1] = p.NewContent(q)
 		case q <= len(p.Ref):
 			out[q-1] = p.Ref[q-1]
+		case inSet(p.plan.U, q):
+			out[q-1] = Content{Z: true} // never written: a gap of zero bytes in the file
 		}
 	}
 	return out
